@@ -177,7 +177,37 @@ pub fn run_child(case: &Case) -> (Option<CaseResult>, Option<Case>, Option<usize
 /// a checksum can request an allocation so large that the process aborts instead of unwinding. An
 /// abort is an outcome ("neither an error nor correct data"), never a harness crash.
 fn exec_corrupt_in_child(case: &Case) -> CaseResult {
-    let (res, _, progress, status) = run_child(case);
+    // A child hands the rest of its mutation list over to a fresh process when it has spawned so
+    // many tasks that their stack mappings get scarce (`recycle_at`); the results are merged.
+    let mut merged: Option<CaseResult> = None;
+    let mut from = case.params.get("mut_from").copied().unwrap_or(0);
+    let (res, progress, status) = loop {
+        let mut c = case.clone();
+        c.params.insert("mut_from".into(), from);
+        let (res, _, progress, status) = run_child(&c);
+        match res {
+            Some(mut r) => {
+                let next = r.stats.extra.remove("recycle_at");
+                let r = match merged.take() {
+                    None => r,
+                    Some(mut m) => {
+                        m.stats.absorb(&r.stats);
+                        m.findings.extend(r.findings);
+                        m.completed = m.completed && r.completed;
+                        m
+                    }
+                };
+                match next {
+                    Some(n) if (n as i64) > from && r.findings.iter().filter(|f| f.concerns("C15")).count() < 3 => {
+                        from = n as i64;
+                        merged = Some(r);
+                    }
+                    _ => break (Some(r), progress, status),
+                }
+            }
+            None => break (None, progress, status),
+        }
+    };
     if let Some(r) = res {
         return r;
     }
@@ -685,7 +715,7 @@ pub fn spec_for(prop: &str) -> Option<CheckSpec> {
         "C04" => hist_spec("C04", Profile::C04, "one evaluation = one simulated history that builds an LSM shape under scheduler control while up to 3 iterators (latest or at a snapshot) are driven by random cursor programs over {seek(universe key or neighbour), seek_to_first, seek_to_last, next, prev} with direction reversals; after every step is_valid()/current() must equal a model cursor over the sorted visible pairs; iterators stay open across later writes, flushes and compactions. The cursor program is input generation; the simulation content is the layout under the iterator (produced by the background thread under scheduler control) and iterators outliving compaction and file deletion.", &["l0_ge4_over_l1_ge2"], (40_000, 1_500_000)),
         "C07" => mixed(hist_spec("C07", Profile::C07, "70% hist / 30% conc. conc clause: after concurrent writers finished (no quiesce), 1-2 reader tasks dump the database forwards/backwards repeatedly while the main task runs flush / compact_range and the background thread compacts; every dump must equal the state captured before. hist clause: one evaluation = one simulated history in which every flush, compact_range(range incl. open ends, empty, reversed) and quiesce is bracketed by full dumps at the latest state and at each live snapshot; dump_before == dump_after (and == model) is required. distinct_nontrivial = distinct coverage signatures among runs where tables were written and read back.", &["l0_ge4_over_l1_ge2", "multi_file_level_ge2"], (40_000, 1_500_000)), vec![(70, Variant::Hist(Profile::C07)), (30, Variant::Conc(ConcProfile::C07))]),
         "C10" => mixed(hist_spec("C10", Profile::C10, "80% hist / 20% crash-image runs (one evaluation per crash point: the shape oracle runs on every recovered image right after open). hist clause: one evaluation = one simulated history; after the first open, every reopen, every CheckAll and at the end the database is quiesced and the structured shape (verif_shape) is checked: per level >= 1 files sorted and pairwise disjoint in internal-key order, smallest <= largest, no file number twice, and every file's bounds equal its first/last stored entry (table read back through verif_api::table_entries); cross-checked against NumFilesAtLevel and SSTables descriptors.", &["l0_ge4_over_l1_ge2", "multi_file_level_ge2"], (20_000, 1_500_000)), vec![(80, Variant::Hist(Profile::C10)), (20, Variant::Crash)]),
-        "C11" => mixed(hist_spec("C11", Profile::C11, "50% hist / 30% conc / 20% crash-image runs (one evaluation per crash point: the directory of every recovered image must equal the needed set right after open - orphan tables, half-written temp files and superseded manifests are reclaimed - and recovery must never fail with missing files). conc clause: reader tasks hold iterators (pinned table set known from verif_shape before/after creation; unknown pins counted as pin_unknown) while writers flush and compact with table-cache capacity 2; a remove of a pinned table in the SimFs log during the iterator's lifetime, or any read failing with NotFound, is a violation. hist clause: one evaluation = one simulated history; the directory listing of SimFs is compared with {CURRENT, LOCK, current manifest, active WAL, tables of the current version} right after every successful open and at quiescent points where no iterator is alive and one reclamation opportunity (flush/compaction end) has passed since the last iterator release; files pending between a release and the next opportunity are counted as lazy_pending_files, not violations; any read failing with NotFound is a violation.", &["l0_ge4_over_l1_ge2"], (20_000, 1_500_000)), vec![(50, Variant::Hist(Profile::C11)), (30, Variant::Conc(ConcProfile::C11)), (20, Variant::Crash)]),
+        "C11" => mixed(hist_spec("C11", Profile::C11, "45% hist / 30% conc / 20% crash-image runs / 5% fault-enumeration runs (after a transient fault that left no recorded error - a failed read - two forced flushes and a quiesce later the directory must hold exactly the needed files). Crash-image runs (one evaluation per crash point: the directory of every recovered image must equal the needed set right after open - orphan tables, half-written temp files and superseded manifests are reclaimed - and recovery must never fail with missing files). conc clause: reader tasks hold iterators (pinned table set known from verif_shape before/after creation; unknown pins counted as pin_unknown) while writers flush and compact with table-cache capacity 2; a remove of a pinned table in the SimFs log during the iterator's lifetime, or any read failing with NotFound, is a violation. hist clause: one evaluation = one simulated history; the directory listing of SimFs is compared with {CURRENT, LOCK, current manifest, active WAL, tables of the current version} right after every successful open and at quiescent points where no iterator is alive and one reclamation opportunity (flush/compaction end) has passed since the last iterator release; files pending between a release and the next opportunity are counted as lazy_pending_files, not violations; any read failing with NotFound is a violation.", &["l0_ge4_over_l1_ge2"], (20_000, 1_500_000)), vec![(45, Variant::Hist(Profile::C11)), (30, Variant::Conc(ConcProfile::C11)), (20, Variant::Crash), (5, Variant::IoFault)]),
         "C09" => mixed(
             hist_spec("C09", Profile::C09, "one evaluation = one simulated run: 5% fault-enumeration runs of the C08 engine (hangs and background panics after a transient or partial-write fault - the filesystem keeps making progress - count; those under a sticky fault do not), the rest on a fault-free filesystem: 25% single-client histories incl. every descriptor kind, 30% concurrent runs with writers, readers, compact_range, every descriptor kind (incl. Stats), snapshot take/release, flush, and close while background work may still be in flight, 40% the concurrent workloads of C05/C03/C11/C06. Violations: shuttle reports a deadlock (all live tasks blocked) or a re-entrant lock acquisition; any task of an open database panics (the orphan worker of a failed open is exempt); a background error is recorded; a run exceeds 2M scheduler steps and still does under a fair round-robin schedule (otherwise counted as unfair_schedule_timeouts).", &["freeze_fired"], (30_000, 2_000_000)),
             vec![(25, Variant::Hist(Profile::C09)), (30, Variant::Conc(ConcProfile::C09)), (5, Variant::IoFault), (5, Variant::Conc(ConcProfile::C05Big)), (10, Variant::Conc(ConcProfile::C05)), (10, Variant::Conc(ConcProfile::C03)), (10, Variant::Conc(ConcProfile::C11)), (10, Variant::Conc(ConcProfile::C06))],
